@@ -1464,8 +1464,12 @@ class ApertureStats:
             warnings.simplefilter('ignore', RuntimeWarning)
             covar_det = np.linalg.det(covar)
 
-            # covariance should be positive semidefinite
-            idx = np.where(covar_det < 0)[0]
+            # covariance should be positive semidefinite; a determinant
+            # that is negative only by rounding (e.g., pixels along a
+            # diagonal line, where it is mathematically zero) is zero
+            tol = 100 * np.finfo(float).eps * np.abs(covar[:, 0, 0]
+                                                     * covar[:, 1, 1])
+            idx = np.where(covar_det < -tol)[0]
             covar[idx] = np.array([[np.nan, np.nan], [np.nan, np.nan]])
 
             idx = np.where(covar_det < delta2)[0]
